@@ -149,7 +149,8 @@ class AsyncIOThreadSafeScheduler(AsyncIOScheduler):
         try:
             current_loop = asyncio.get_running_loop()
         except RuntimeError:
-            # If no running event loop is found, assume we're in a different thread
-            return True
+            # No running event loop in this thread: we are on a different thread
+            # than the (running) loop, so the cancellation must be marshalled
+            return False
 
         return self._loop == current_loop
